@@ -42,6 +42,9 @@ func genJSONValue(r *rt.Rand, depth int) (v interface{}, encodable bool) {
 		return time.Unix(int64(r.Intn(2_000_000_000)), int64(r.Intn(1_000_000_000))).In(time.FixedZone("z", (r.Intn(27)-13)*3600)), true
 	case x < 60:
 		return json.Number(fmt.Sprint(r.Intn(1000))), true
+	case x < 62:
+		// an error value: encoding/json renders it by its exported fields (none: {}), and so must the line
+		return fmt.Errorf("an error value %d", r.Intn(100)), true
 	}
 	if depth <= 0 {
 		return "leaf", true
